@@ -637,6 +637,52 @@ func (x *ctxInfo) checkSplitCurves(p *canvas.Path, length float64, lengthOK bool
 	for i, f := range s.Fr {
 		ts[i] = float64(f) / 16 * length
 	}
+	x.checkSplitPositions(p, ts, fmt.Sprintf("sixteenths %v of Length() = %.9g", s.Fr, length), length, add)
+}
+
+// checkSplitJoints cuts the path EXACTLY at a joint between two segments of its first sub-path - the position is the
+// library's own Length() of the head of the path up to that joint (the same summation SplitAt performs) - and once more
+// half way through the rest. Both positions lie strictly inside (0, Length), so three consecutive pieces are due.
+func (x *ctxInfo) checkSplitJoints(p *canvas.Path, length float64, lengthOK bool, add func(sig, detail string)) {
+	s := x.s
+	if !lengthOK || !(length > 0) || len(s.Path) == 0 {
+		return
+	}
+	c0 := s.Path[0]
+	for i := 1; i < len(c0.Segs) || (i == len(c0.Segs) && (len(s.Path) > 1 || c0.Cl)); i++ {
+		headAbs := latcurve.Path{latcurve.Contour{S: c0.S, Segs: c0.Segs[:i]}}
+		head := latcurve.Build(headAbs, s.Emb, 1)
+		if ok, _ := latcurve.Faithful(headAbs, head, s.Emb, 1); !ok {
+			continue
+		}
+		t1, pm := guardF(head.Length)
+		if pm != nil || !(t1 > band*length) || !(t1 < length*(1-2*band)) {
+			continue
+		}
+		// the builder may merge the joint away (collinear lines): only a joint that is a command boundary of p counts
+		if !dataPrefix(head.Data(), p.Data()) {
+			continue
+		}
+		t2 := t1 + (length-t1)/2
+		x.checkSplitPositions(p, []float64{t1, t2}, fmt.Sprintf("joint after segment %d at the head's own Length() and half way through the rest, Length() = %.9g", i, length), length, add)
+	}
+}
+
+// dataPrefix: the commands of head are the first commands of p (bit-identical numbers).
+func dataPrefix(head, p []float64) bool {
+	if len(head) > len(p) {
+		return false
+	}
+	for i := range head {
+		if head[i] != p[i] {
+			return false
+		}
+	}
+	return true
+}
+
+func (x *ctxInfo) checkSplitPositions(p *canvas.Path, ts []float64, note string, length float64, add func(sig, detail string)) {
+	s := x.s
 	pf := x.pathFeat()
 	tag := ""
 	if t := featTag(pf); t != "" {
@@ -644,7 +690,7 @@ func (x *ctxInfo) checkSplitCurves(p *canvas.Path, length float64, lengthOK bool
 	} else if x.multi {
 		tag = "+multi-subpath"
 	}
-	where := fmt.Sprintf("SplitAt(%v) [sixteenths %v of Length() = %.9g]; %s", ts, s.Fr, length, s.desc())
+	where := fmt.Sprintf("SplitAt(%v) [%s]; %s", ts, note, s.desc())
 	ps, pm := splitCall(p, ts)
 	if pm != nil {
 		if x.multi {
@@ -1002,6 +1048,7 @@ func exec(s *Scenario, stat func(lenStat)) (r result) {
 			x.checkSplitPoly(p, length, lok, add)
 		} else if len(s.Fr) > 0 {
 			x.checkSplitCurves(p, length, lok, add)
+			x.checkSplitJoints(p, length, lok, add)
 		}
 		r.evals++
 	}
@@ -1261,6 +1308,7 @@ func (d Driver) Run(c *core.Ctx) error {
 		gen(6, 1, "curves", `{"C"}`, "{1}", 2000, 7)
 		gen(8, 1, "curves", `{"Q"}`, "{1}", 1500, 10)
 		gen(6, 1, "chord", `{"L","A"}`, "{1}", 2000, 8)
+		gen(12, 1, "overshoot", `{"Q"}`, "{1}", 700, 11) // collinear quadratics whose control point lies outside the chord
 		gen(12, 0, "curves", `{"L"}`, "{1}", 2500, 9)
 	} else {
 		gen(8, 0, "pyth", `{"L"}`, "{1}", 800, 0)
@@ -1269,6 +1317,7 @@ func (d Driver) Run(c *core.Ctx) error {
 		gen(30, 1, "curves", `{"A"}`, "{8,9,12}", 50, 5)
 		gen(8, 0, "curves", `{"L","Q","C"}`, "{1}", 250, 6)
 		gen(6, 1, "chord", `{"L","A"}`, "{1}", 200, 8)
+		gen(12, 1, "overshoot", `{"Q"}`, "{1}", 80, 11) // collinear quadratics whose control point lies outside the chord
 	}
 	sem := make(chan struct{}, 4)
 	var wg sync.WaitGroup
